@@ -1990,6 +1990,386 @@ theorem trace_prefix_of_suffix {a b : St} (h : a.tr <:+ b.tr) : a.trace <+: b.tr
   simpa [St.trace, List.reverse_prefix] using h
 
 
+/-! ### Counters and scopes: a verified static analysis
+
+`Stmt.ctr p h`: abstract run of `p` where `h` means "the innermost scope certainly holds a counter".
+`none` means some `bump` might reach a counter of an enclosing scope. -/
+
+def Stmt.ctr : Stmt → Bool → Option Bool
+  | .skip, h => some h
+  | .atom (.prim _ _), h => some h
+  | .atom .counter0, _ => some true
+  | .atom .bump, h => if h then some true else none
+  | .seq a b, h =>
+    match a.ctr h with
+    | some h1 => b.ctr h1
+    | none => none
+  | .loop _ b, h =>
+    match b.ctr h with
+    | some _ => some h
+    | none => none
+  | .ite _ t e, h =>
+    match t.ctr h, e.ctr h with
+    | some _, some _ => some h
+    | _, _ => none
+  | .inScope b, h =>
+    match b.ctr false with
+    | some _ => some h
+    | none => none
+
+/-- No counter operation outside inner scopes. -/
+def Stmt.flat : Stmt → Bool
+  | .skip => true
+  | .atom (.prim _ _) => true
+  | .atom .counter0 => false
+  | .atom .bump => false
+  | .seq a b => a.flat && b.flat
+  | .loop _ b => b.flat
+  | .ite _ t e => t.flat && e.flat
+  | .inScope _ => true
+
+def head0 : Reg → Bool
+  | [] => false
+  | m :: _ => (m.get? 0).isSome
+
+structure CtrOut (h' : Bool) (fl : Bool) (σ : St) (x : St × Res) : Prop where
+  len : x.1.reg.length = σ.reg.length
+  tail : (profile x.1.reg).tail = (profile σ.reg).tail
+  mono : head0 σ.reg = true → head0 x.1.reg = true
+  post : x.2 = .ok → h' = true → head0 x.1.reg = true
+  full : fl = true → profile x.1.reg = profile σ.reg
+
+theorem head0_of_profile {r r' : Reg} (h : profile r' = profile r) : head0 r' = head0 r := by
+  cases r <;> cases r' <;> simp_all [profile, head0]
+
+theorem ctrOut_of_profile {h' fl : Bool} {σ : St} {x : St × Res} (hp : profile x.1.reg = profile σ.reg)
+    (hpost : x.2 = .ok → h' = true → head0 σ.reg = true) : CtrOut h' fl σ x where
+  len := by have := congrArg List.length hp; simpa [profile] using this
+  tail := by rw [hp]
+  mono h := by rw [head0_of_profile hp]; exact h
+  post h1 h2 := by rw [head0_of_profile hp]; exact hpost h1 h2
+  full _ := hp
+
+theorem ctrOut_seq {h1 h2 f1 f2 : Bool} {σ : St} {x : St × Res} {k : St → St × Res}
+    (hx : CtrOut h1 f1 σ x) (hk : x.2 = .ok → CtrOut h2 f2 x.1 (k x.1)) :
+    CtrOut h2 (f1 && f2) σ (andThen x k) := by
+  obtain ⟨σ1, r1⟩ := x
+  cases r1
+  · simp only [andThen]
+    have hk := hk rfl
+    exact {
+      len := hk.len.trans hx.len,
+      tail := hk.tail.trans hx.tail,
+      mono := fun h => hk.mono (hx.mono h),
+      post := hk.post,
+      full := fun h => by
+        simp only [Bool.and_eq_true] at h
+        exact (hk.full h.2).trans (hx.full h.1) }
+  all_goals
+    simp only [andThen]
+    exact { len := hx.len, tail := hx.tail, mono := hx.mono, post := fun h => (by cases h),
+            full := fun h => by simp only [Bool.and_eq_true] at h; exact hx.full h.1 }
+
+theorem ctrOut_weaken {h1 h2 f1 f2 : Bool} {σ : St} {x : St × Res} (hx : CtrOut h1 f1 σ x)
+    (hh : h2 = true → x.2 = .ok → head0 x.1.reg = true) (hf : f2 = true → f1 = true) : CtrOut h2 f2 σ x :=
+  { len := hx.len, tail := hx.tail, mono := hx.mono, post := fun a b => hh b a, full := fun h => hx.full (hf h) }
+
+theorem ne_nil_of_len {r r' : Reg} (h : r'.length = r.length) (hne : r ≠ []) : r' ≠ [] := by
+  intro h0; rw [h0] at h; cases r <;> simp_all
+
+theorem whileN_ctr {h fl : Bool} {cond : St → St × CRes} {body : St → St × Res}
+    (hc : ∀ σ, (cond σ).1.reg = σ.reg)
+    (hb : ∀ σ, σ.reg ≠ [] → (h = true → head0 σ.reg = true) → ∃ h1, CtrOut h1 fl σ (body σ)) :
+    ∀ (n : Nat) (σ : St), σ.reg ≠ [] → (h = true → head0 σ.reg = true) →
+      CtrOut h fl σ (whileN cond body n σ) := by
+  intro n
+  induction n with
+  | zero =>
+    intro σ _ hσ
+    exact ctrOut_of_profile rfl (fun _ => hσ)
+  | succ n ih =>
+    intro σ hne hσ
+    simp only [whileN]
+    have hcr := hc σ
+    cases hcond : cond σ with
+    | mk σ1 v =>
+      rw [hcond] at hcr; simp only at hcr
+      cases v with
+      | err ph id => exact ctrOut_of_profile (by rw [hcr]) (fun h => by cases h)
+      | val b =>
+        cases b
+        · exact ctrOut_of_profile (by rw [hcr]) (fun _ => hσ)
+        · simp only
+          have hσ1 : h = true → head0 σ1.reg = true := by rw [hcr]; exact hσ
+          have hne1 : σ1.reg ≠ [] := by rw [hcr]; exact hne
+          obtain ⟨h1, hb1⟩ := hb σ1 hne1 hσ1
+          have key : CtrOut h (fl && fl) σ1 (andThen (body σ1) (whileN cond body n)) :=
+            ctrOut_seq hb1 (fun _ => ih _ (ne_nil_of_len hb1.len hne1) (fun hh => hb1.mono (hσ1 hh)))
+          exact {
+            len := by rw [key.len, hcr],
+            tail := by rw [key.tail, hcr],
+            mono := fun hh => key.mono (by rw [hcr]; exact hh),
+            post := key.post,
+            full := fun hh => by rw [key.full (by simp [hh]), hcr] }
+
+theorem incr_head0 {r r' : Reg} (h0 : head0 r = true) (hi : r.incr = some r') :
+    r'.length = r.length ∧ (profile r').tail = (profile r).tail ∧ head0 r' = true := by
+  cases r with
+  | nil => simp [head0] at h0
+  | cons m t =>
+    simp only [head0] at h0
+    simp only [Reg.incr] at hi
+    cases hm : m.get? 0 with
+    | none => simp [hm] at h0
+    | some v =>
+      simp only [hm] at hi
+      injection hi with hi; subst hi
+      simp [profile, head0, Scope.get_put]
+
+theorem incr_of_head0 {r : Reg} (h0 : head0 r = true) : ∃ r', r.incr = some r' := by
+  cases r with
+  | nil => simp [head0] at h0
+  | cons m t =>
+    simp only [head0] at h0
+    cases hm : m.get? 0 with
+    | none => simp [hm] at h0
+    | some v => exact ⟨m.put 0 (v + 1) :: t, by simp [Reg.incr, hm]⟩
+
+theorem ctr_sound (s : Script) (f : Nat) : ∀ (p : Stmt) (h h' : Bool) (σ : St),
+    p.all (Op.sat Act.offCounter true) (fun _ => true) = true → p.ctr h = some h' → σ.reg ≠ [] →
+    (h = true → head0 σ.reg = true) → CtrOut h' p.flat σ (srun s f p σ)
+  | .skip, h, h', σ, _, hc, _, hσ => by
+    simp only [Stmt.ctr] at hc; injection hc with hc; subst hc
+    exact ctrOut_of_profile rfl (fun _ => hσ)
+  | .atom (.prim ev acts), h, h', σ, hp, hc, _, hσ => by
+    simp only [Stmt.ctr] at hc; injection hc with hc; subst hc
+    simp only [Stmt.all, Op.sat, Bool.and_eq_true] at hp
+    simp only [srun, opRun]
+    rcases step_cases s ev (effOf ev.1 acts) σ with h1 | ⟨r, hr, h1⟩ <;> rw [h1]
+    · exact ctrOut_of_profile rfl (fun h => by cases h)
+    · exact ctrOut_of_profile (profile_effOf _ acts hp.2 _ _ hr) (fun _ => hσ)
+  | .atom .counter0, h, h', σ, _, hc, hne, hσ => by
+    simp only [Stmt.ctr] at hc; injection hc with hc; subst hc
+    obtain ⟨reg, tr⟩ := σ
+    cases reg with
+    | nil => exact absurd rfl hne
+    | cons m t =>
+      simp only [srun, opRun, newCounter, Stmt.flat, Reg.insert]
+      exact { len := by simp, tail := by simp [profile],
+              mono := fun _ => by simp [head0, Scope.get_put],
+              post := fun _ _ => by simp [head0, Scope.get_put],
+              full := fun h => by cases h }
+  | .atom .bump, h, h', σ, _, hc, _, hσ => by
+    simp only [Stmt.ctr] at hc
+    cases h with
+    | false => simp at hc
+    | true =>
+      simp only [if_true] at hc; injection hc with hc; subst hc
+      have h0 := hσ rfl
+      obtain ⟨r', hr'⟩ := incr_of_head0 h0
+      obtain ⟨a, b, c⟩ := incr_head0 h0 hr'
+      simp only [srun, opRun, bump, hr', Stmt.flat]
+      exact { len := a, tail := b, mono := fun _ => c, post := fun _ _ => c, full := fun h => by cases h }
+  | .seq a b, h, h', σ, hp, hc, hne, hσ => by
+    simp only [Stmt.all, Bool.and_eq_true] at hp
+    simp only [Stmt.ctr] at hc
+    cases ha : a.ctr h with
+    | none => simp [ha] at hc
+    | some h1 =>
+      simp only [ha] at hc
+      simp only [srun, Stmt.flat]
+      have ia := ctr_sound s f a h h1 σ hp.1 ha hne hσ
+      exact ctrOut_seq ia (fun hok => ctr_sound s f b h1 h' _ hp.2 hc (ne_nil_of_len ia.len hne) (fun hh => ia.post hok hh))
+  | .loop c b, h, h', σ, hp, hc, hne, hσ => by
+    simp only [Stmt.all, Bool.and_eq_true] at hp
+    simp only [Stmt.ctr] at hc
+    cases hb : b.ctr h with
+    | none => simp [hb] at hc
+    | some h1 =>
+      simp only [hb] at hc; injection hc with hc; subst hc
+      simp only [srun, Stmt.flat]
+      exact whileN_ctr (fun x => condEval_reg s c x)
+        (fun x hxne hx => ⟨h1, ctr_sound s f b h h1 x hp.2 hb hxne hx⟩) f σ hne hσ
+  | .ite c t e, h, h', σ, hp, hc, hne, hσ => by
+    simp only [Stmt.all, Bool.and_eq_true] at hp
+    simp only [Stmt.ctr] at hc
+    cases ht : t.ctr h with
+    | none => simp [ht] at hc
+    | some h1 =>
+      cases he : e.ctr h with
+      | none => simp [ht, he] at hc
+      | some h2 =>
+        simp only [ht, he] at hc; injection hc with hc; subst hc
+        simp only [srun, Stmt.flat]
+        have hcr := condEval_reg s c σ
+        cases hcond : condEval s c σ with
+        | mk σ1 v =>
+          rw [hcond] at hcr; simp only at hcr
+          have hσ1 : h = true → head0 σ1.reg = true := by rw [hcr]; exact hσ
+          have hne1 : σ1.reg ≠ [] := by rw [hcr]; exact hne
+          cases v with
+          | err ph id => exact ctrOut_of_profile (by rw [hcr]) (fun hh => by cases hh)
+          | val bv =>
+            cases bv
+            · simp only
+              have ie := ctr_sound s f e h h2 σ1 hp.2 he hne1 hσ1
+              exact { len := by rw [ie.len, hcr], tail := by rw [ie.tail, hcr],
+                      mono := fun hh => ie.mono (by rw [hcr]; exact hh),
+                      post := fun _ hh => ie.mono (hσ1 hh),
+                      full := fun hh => by simp only [Bool.and_eq_true] at hh; rw [ie.full hh.2, hcr] }
+            · simp only
+              have it := ctr_sound s f t h h1 σ1 hp.1.2 ht hne1 hσ1
+              exact { len := by rw [it.len, hcr], tail := by rw [it.tail, hcr],
+                      mono := fun hh => it.mono (by rw [hcr]; exact hh),
+                      post := fun _ hh => it.mono (hσ1 hh),
+                      full := fun hh => by simp only [Bool.and_eq_true] at hh; rw [it.full hh.1, hcr] }
+  | .inScope b, h, h', σ, hp, hc, _, hσ => by
+    simp only [Stmt.all] at hp
+    simp only [Stmt.ctr] at hc
+    cases hb : b.ctr false with
+    | none => simp [hb] at hc
+    | some h1 =>
+      simp only [hb] at hc; injection hc with hc; subst hc
+      simp only [srun]
+      have ib := ctr_sound s f b false h1 (push σ) hp hb (by simp [push]) (fun hh => by cases hh)
+      have hprof : profile (pop (srun s f b (push σ)).1).reg = profile σ.reg := by
+        have := ib.tail
+        simp only [push, profile, List.map_cons, List.tail_cons] at this
+        simp only [pop, profile, List.map_tail]
+        exact this
+      exact ctrOut_of_profile hprof (fun _ => hσ)
+
+
+mutual
+  theorem condProg_ctr (ph : Phase) : ∀ (c : Cond) (h : Bool), (condProg ph c).ctr h = some h
+    | .leaf id, h => rfl
+    | .all cs, h => by simp only [condProg]; exact condsProg_ctr ph cs h
+    | .any cs, h => by simp only [condProg]; exact condsProg_ctr ph cs h
+    | .not c, h => by simp only [condProg]; exact condProg_ctr ph c h
+  theorem condsProg_ctr (ph : Phase) : ∀ (cs : Conds) (h : Bool), (condsProg ph cs).ctr h = some h
+    | .nil, h => rfl
+    | .cons c cs, h => by simp [condsProg, Stmt.ctr, condProg_ctr ph c h, condsProg_ctr ph cs h]
+end
+
+mutual
+  theorem condProg_flat (ph : Phase) : ∀ (c : Cond), (condProg ph c).flat = true
+    | .leaf id => rfl
+    | .all cs => by simp only [condProg]; exact condsProg_flat ph cs
+    | .any cs => by simp only [condProg]; exact condsProg_flat ph cs
+    | .not c => by simp only [condProg]; exact condProg_flat ph c
+  theorem condsProg_flat (ph : Phase) : ∀ (cs : Conds), (condsProg ph cs).flat = true
+    | .nil => rfl
+    | .cons c cs => by simp [condsProg, Stmt.flat, condProg_flat ph c, condsProg_flat ph cs]
+end
+
+mutual
+  theorem initProg_ctr : ∀ (b : Comp) (h : Bool), (initProg b).ctr h = some (h || b.hasLoop)
+    | .leaf _ _, h => by simp [initProg, Stmt.ctr, Comp.hasLoop]
+    | .block cs, h => by simp only [initProg, Comp.hasLoop]; exact initProgs_ctr cs h
+    | .loop c b, h => by simp [initProg, Stmt.ctr, Comp.hasLoop, condProg_ctr, initProg_ctr b true]
+    | .branch c t e he, h => by
+      cases he
+      · simp [initProg, Stmt.ctr, Comp.hasLoop, condProg_ctr, initProg_ctr t h]
+      · simp [initProg, Stmt.ctr, Comp.hasLoop, condProg_ctr, initProg_ctr t h, initProg_ctr e, Bool.or_assoc]
+    | .scope _, h => by simp [initProg, Stmt.ctr, Comp.hasLoop]
+  theorem initProgs_ctr : ∀ (cs : Comps) (h : Bool), (initProgs cs).ctr h = some (h || cs.hasLoop)
+    | .nil, h => by simp [initProgs, Stmt.ctr, Comps.hasLoop]
+    | .cons c cs, h => by
+      simp [initProgs, Stmt.ctr, Comps.hasLoop, initProg_ctr c h, initProgs_ctr cs, Bool.or_assoc]
+end
+
+mutual
+  theorem reqProg_ctr : ∀ (b : Comp) (h : Bool), (reqProg b).ctr h = some h
+    | .leaf _ _, h => rfl
+    | .block cs, h => by simp only [reqProg]; exact reqProgs_ctr cs h
+    | .loop c b, h => by simp [reqProg, Stmt.ctr, condProg_ctr, reqProg_ctr b h]
+    | .branch c t e he, h => by
+      cases he
+      · simp [reqProg, Stmt.ctr, condProg_ctr, reqProg_ctr t h]
+      · simp [reqProg, Stmt.ctr, condProg_ctr, reqProg_ctr t h, reqProg_ctr e h]
+    | .scope _, h => rfl
+  theorem reqProgs_ctr : ∀ (cs : Comps) (h : Bool), (reqProgs cs).ctr h = some h
+    | .nil, h => rfl
+    | .cons c cs, h => by simp [reqProgs, Stmt.ctr, reqProg_ctr c h, reqProgs_ctr cs h]
+end
+
+mutual
+  theorem execProg_ctr : ∀ (b : Comp) (h : Bool), (b.hasLoop = true → h = true) → (execProg b).ctr h = some h
+    | .leaf _ _, h, _ => rfl
+    | .block cs, h, hh => by simp only [execProg]; exact execProgs_ctr cs h (by simpa [Comp.hasLoop] using hh)
+    | .loop c b, h, hh => by
+      have : h = true := hh (by simp [Comp.hasLoop])
+      subst this
+      simp [execProg, Stmt.ctr, condProg_ctr, execProg_ctr b true (fun _ => rfl)]
+    | .branch c t e he, h, hh => by
+      simp only [Comp.hasLoop, Bool.or_eq_true, Bool.and_eq_true] at hh
+      cases he
+      · simp [execProg, Stmt.ctr, execProg_ctr t h (fun x => hh (Or.inl x))]
+      · simp [execProg, Stmt.ctr, execProg_ctr t h (fun x => hh (Or.inl x)),
+          execProg_ctr e h (fun x => hh (Or.inr ⟨rfl, x⟩))]
+    | .scope b, h, _ => by
+      have := execProg_ctr b b.hasLoop (fun x => x)
+      simp [execProg, Stmt.ctr, initProg_ctr b false, reqProg_ctr b, this]
+  theorem execProgs_ctr : ∀ (cs : Comps) (h : Bool), (cs.hasLoop = true → h = true) → (execProgs cs).ctr h = some h
+    | .nil, h, _ => rfl
+    | .cons c cs, h, hh => by
+      simp only [Comps.hasLoop, Bool.or_eq_true] at hh
+      simp [execProgs, Stmt.ctr, execProg_ctr c h (fun x => hh (Or.inl x)),
+        execProgs_ctr cs h (fun x => hh (Or.inr x))]
+end
+
+mutual
+  theorem execProg_flat : ∀ (b : Comp), b.hasLoop = false → (execProg b).flat = true
+    | .leaf _ _, _ => rfl
+    | .block cs, h => by simp only [execProg]; exact execProgs_flat cs (by simpa [Comp.hasLoop] using h)
+    | .loop c b, h => by simp [Comp.hasLoop] at h
+    | .branch c t e he, h => by
+      simp only [Comp.hasLoop, Bool.or_eq_false_iff, Bool.and_eq_false_iff] at h
+      cases he
+      · simp [execProg, Stmt.flat, execProg_flat t h.1]
+      · have he' : e.hasLoop = false := by rcases h.2 with h2 | h2 <;> simp_all
+        simp [execProg, Stmt.flat, execProg_flat t h.1, execProg_flat e he']
+    | .scope b, _ => rfl
+  theorem execProgs_flat : ∀ (cs : Comps), cs.hasLoop = false → (execProgs cs).flat = true
+    | .nil, _ => rfl
+    | .cons c cs, h => by
+      simp only [Comps.hasLoop, Bool.or_eq_false_iff] at h
+      simp [execProgs, Stmt.flat, execProg_flat c h.1, execProgs_flat cs h.2]
+end
+
+theorem scopeBody_ctr (b : Comp) : (scopeBody b).ctr false = some b.hasLoop := by
+  have := execProg_ctr b b.hasLoop (fun x => x)
+  simp [scopeBody, Stmt.ctr, initProg_ctr b false, reqProg_ctr b, this]
+
+/-- A scope never changes the counters the caller sees (at any depth), as long as leaves leave
+`Iterations` alone: loops inside the scope count on counters of their own. Holds for every outcome. -/
+theorem scope_profile (s : Script) (f : Nat) (b : Comp)
+    (hb : b.sat Act.offCounter (fun _ => true) true = true) (σ : St) :
+    profile (exec s f (.scope b) σ).1.reg = profile σ.reg := by
+  rw [exec_scope]
+  have ib := ctr_sound s f (scopeBody b) false b.hasLoop (push σ) (scopeBody_all _ _ true b hb)
+    (scopeBody_ctr b) (by simp [push]) (fun hh => by cases hh)
+  have := ib.tail
+  simp only [push, profile, List.map_cons, List.tail_cons] at this
+  simp only [pop, profile, List.map_tail]
+  exact this
+
+/-- Executing a tree with no loop outside its scopes, whose leaves leave `Iterations` alone, does not
+change the visible counter. -/
+theorem exec_counter_same' (s : Script) (f : Nat) (b : Comp)
+    (hb : b.sat Act.offCounter (fun _ => true) true = true) (hl : b.hasLoop = false) (σ : St) :
+    (exec s f b σ).1.reg.get? 0 = σ.reg.get? 0 := by
+  by_cases hne : σ.reg = []
+  · have hlen : (exec s f b σ).1.reg.length = σ.reg.length := by rw [exec_eq]; exact srun_depth s f _ σ
+    rw [hne] at hlen ⊢
+    have : (exec s f b σ).1.reg = [] := List.eq_nil_of_length_eq_zero (by simpa using hlen)
+    rw [this]
+  · rw [exec_eq]
+    have := ctr_sound s f (execProg b) false false σ (execProg_all _ _ true b hb)
+      (execProg_ctr b false (fun x => by rw [hl] at x; cases x)) hne (fun hh => by cases hh)
+    exact get0_of_profile _ _ (this.full (execProg_flat b hl))
+
+
 /-! ### A concrete tree, script and state for the non-vacuity examples in `Props/C03.lean` -/
 
 /-- `{ leaf1: insert K1 = 5 ; while c101 { leaf2: set K2 := 9 } }`. -/
